@@ -12,8 +12,8 @@ Tr == ndJsonDeserialize(IOEnv.TRACE)
 VARIABLES l, nbad
 
 LifeVerdict(ev) ==
-    LET owners0 == <<[r |-> 1, els |-> IpfEls(ev.pre.f)], [r |-> 2, els |-> IpfEls(ev.pre.g)]>>
-        owners1 == <<[r |-> 1, els |-> IpfEls(ev.post.f)], [r |-> 2, els |-> IpfEls(ev.post.g)]>>
+    LET owners0 == <<[r |-> 1, els |-> IpfEls(ev.pre.f)], [r |-> 2, els |-> IpfEls(ev.pre.g)], [r |-> 3, els |-> IpfEls(ev.pre.h)]>>
+        owners1 == <<[r |-> 1, els |-> IpfEls(ev.post.f)], [r |-> 2, els |-> IpfEls(ev.post.g)], [r |-> 3, els |-> IpfEls(ev.post.h)]>>
         f0 == InitCells(owners0, ev.life.ext)
         run == LRun(f0, ev.life.evs, 1)
     IN IF run.bad # 0 THEN "life-protocol"
@@ -24,7 +24,7 @@ JudgeIpf(ev) ==
     IF ~IpfPre(ev.op, ev.o, ev.x, ev.pre) THEN "harness-pre"
     \* the projected state (bool + probe call) is not a wrapper state at all: e.g. bool says "not empty" but a call
     \* reaches no target, or the capture reads a value no history stored - an observation about the implementation
-    ELSE IF ~(LegalW(ev.pre.f) /\ LegalW(ev.pre.g)) THEN "state"
+    ELSE IF ~(LegalW(ev.pre.f) /\ LegalW(ev.pre.g) /\ LegalW(ev.pre.h)) THEN "state"
     ELSE IF ~IpfPost(ev.op, ev.o, ev.x, ev.pre, ev.post, ev.ret, ev.calls, ev.handler) THEN
             (IF ev.op = "call" THEN "call" ELSE "post")
     ELSE IF ~IpfObsOK(ev.obs, ev.post) THEN "obs"
